@@ -19,6 +19,13 @@ def _to_int_summary(interp, call, args, env):
 KNOWN = {"_to_int": _to_int_summary}
 
 
+def _p(text):
+    try:
+        return ast.parse(text, mode="eval").body
+    except SyntaxError:
+        return None
+
+
 def timedelta_poly(call):
     """Polynomial (in seconds) of a timedelta(...) call, or None."""
     if not (isinstance(call, ast.Call) and src(call.func).endswith("timedelta")):
@@ -238,8 +245,11 @@ def check_tzstr(ctx, rule_cover, rule_range, rule_sign, rule_utc):
                         ctx.ob(rule_range, f, "minutes reaching tzoffset lie in [0, 59]", isinstance(mv, Val) and mv.within(0, 59), construct="minutes at tzoffset", detail="interval %r" % (mv,), analysis="IVL")
     if rule_utc:
         rets = [n for n in cfg.live_nodes() if n.kind == "stmt" and isinstance(n.ast, ast.Return)]
-        z = [n for n in rets if src(n.ast.value) == "tz.UTC" and any(tv and "b'Z'" in t for t, tv in facts.at(n))]
-        ctx.ob(rule_utc, f, "'Z' and 'z' are UTC", len(z) == 1 and any(tv and "b'z'" in t and "b'Z'" in t for t, tv in facts.at(z[0])), construct="Z -> tz.UTC")
+        def zfact(n):
+            return any(tv and isinstance(_p(t), ast.BoolOp) and "b'z'" in t and "b'Z'" in t and "==" in t for t, tv in facts.at(n)) or \
+                any(tv and t.replace(" ", "") in ("%s==b'Z'" % p0, "%s==b'z'" % p0, "%sin(b'Z',b'z')" % p0, "%sinb'Zz'" % p0) for t, tv in facts.at(n))
+        z = [n for n in rets if src(n.ast.value) == "tz.UTC" and zfact(n)]
+        ctx.ob(rule_utc, f, "'Z' and 'z' are UTC", len(z) >= 1 and all(zfact(n) for n in z), construct="Z -> tz.UTC")
         zero = [n for n in rets if src(n.ast.value) == "tz.UTC" and n not in z]
         okz = len(zero) == 1 and ("zero_as_utc", True) in facts.at(zero[0]) and ("hours == 0", True) in facts.at(zero[0]) and ("minutes == 0", True) in facts.at(zero[0])
         ctx.ob(rule_utc, f, "a zero offset is represented as tz.UTC when zero_as_utc is set", okz, construct="zero offset -> tz.UTC")
